@@ -202,6 +202,14 @@ func (sc *Scope) evalVal(e *SExpr) Val {
 		if t, ok := sc.bound[e.Name]; ok {
 			return Val{T: t}
 		}
+		if strings.HasPrefix(e.Name, "seen_") {
+			if c, ok := sc.ex.iterByName[e.Name[5:]]; ok {
+				if t, live := sc.st[c]; live {
+					return Val{T: t}
+				}
+			}
+			sc.errorf(e, "no map iterator named %s in this state", e.Name[5:])
+		}
 		if strings.HasPrefix(e.Name, "set_") || strings.HasPrefix(e.Name, "pos_") {
 			if vw, ok := sc.ex.views[e.Name[4:]]; ok {
 				c := vw.set
